@@ -171,6 +171,29 @@ def _param_always_dataset(P, fi, pname, depth=0):
     return True
 
 
+def _widening_only(ctx, fi):
+    """Every store to X._values made by fi assigns _maybe_cast_type(X._values, ...) / _maybe_cast_type(X.values, ...): the array is re-typed, its shape
+    (which is what the axes are checked against) stays what it was."""
+    from ..rules import run
+    from .. import terms as T
+    try:
+        ev = run(ctx, fi, mode='join')
+    except AnalysisError:
+        return False
+    n = 0
+    for p in ev.paths:
+        for e in p.events:
+            if e.kind == 'store_attr' and e.b == '_values' and e.frame == fi.qualname:
+                v = e.c
+                if not (v[0] == 'call' and T.call_name(v) == '_maybe_cast_type' and v[1][0] == 'name' and v[2]
+                        and v[2][0] in (('attr', e.a, '_values'), ('attr', e.a, 'values'))):
+                    return False
+                n += 1
+            elif e.kind == 'del' and e.frame == fi.qualname:
+                return False
+    return n > 0
+
+
 def rule_who_may_write(ctx):
     ctx.rule('R2', 'who may write ._values / ._axes; count-changing mutators on an array\'s Axes', 12)
     P = ctx.P
@@ -186,6 +209,10 @@ def rule_who_may_write(ctx):
                     if key not in seen:
                         seen.add(key)
                         ctx.holds('R2', 'store %s.%s: %s' % (fi.qualname.replace('dimarray.', ''), node.attr, ALLOWED_STORES[key]))
+                elif node.attr == '_values' and _widening_only(ctx, fi):
+                    if key not in seen:
+                        seen.add(key)
+                        ctx.holds('R2', 'store %s._values: dtype widening only (every store is _maybe_cast_type(<the same object\'s values>, ...))' % fi.qualname.replace('dimarray.', ''))
                 else:
                     ctx.violated('R2', fi, node, 'direct write of .%s outside the checked constructor / setters: the shape-vs-axes '
                                  'check is by-passed' % node.attr, node=node)
